@@ -304,7 +304,7 @@ def special_cases(draw):
     if draw(st.booleans()):
         z = (bk[0] + bk[1]) / 2
         Uhigh = sorted(Uhigh + [z])
-    c, kind = draw(gen.special_rational(Ulow, plow, Uhigh, plow + t))
+    c, kind = draw(gen.special_rational(Ulow, plow, Uhigh, plow + t, function_kinds=True))
     cleans = draw(st.lists(st.sampled_from(["knot_clean", "degree_clean", "clean"]), min_size=1, max_size=3))
     return {"curve": c, "cleans": cleans, "special": kind, "tol": draw(TOLS)}
 
@@ -364,7 +364,8 @@ FACETS = [
     Facet("history-rational", lambda tier: rational_history_cases(), check_rational_history, quick=200, thorough=2500,
           rule="rational curve minimal in homogeneous coordinates -> library refinement history -> clean calls -> nothing "
                "removable in homogeneous coordinates is left, clean() restores the knot vector", case_timeout=120),
-    Facet("rational-special", lambda tier: special_cases(), check_arbitrary, quick=160, thorough=2500,
-          rule="rational curves whose weight function alone / numerator alone / constant weights are reducible",
+    Facet("rational-special", lambda tier: special_cases(), check_arbitrary, quick=320, thorough=3500,
+          rule="rational curves whose weight function alone / numerator alone / constant weights are reducible, and curves "
+               "that are piecewise constant as functions under arbitrary weights (reducible as a function only)",
           case_timeout=120),
 ]
